@@ -8,7 +8,8 @@ FORMULAS = ["H2O", "CaCO3+6H2O", "D2O", "H[2]2O", "Fe{2+}O", "Ni[58]{3+}Cl3", "N
             "5wt% NaCl // H2O", "(CH2)8", "Fe2(SO4)3", "T2O", "50vol% D2O@1.1 // H2O@1", "Gd[155]2O3",
             "1mm Fe // 2mm Ni", "5g NaCl // 50mL H2O@1", " ", "n", "U[235]O2"]
 FASTA = ["aa:AVG", "dna:ACGT", "rna:ACGU"]
-FORMULA_HOW = ["str", "str", "density", "parse", "copy", "pickle", "deepcopy", "add"]
+FORMULA_HOW = ["str", "str", "density", "parse", "copy", "pickle", "deepcopy", "add", "dict", "hill", "replace",
+               "replace_iso", "natural", "structure"]
 
 DATALESS = [[84, 0, 0], [118, 0, 0], [89, 0, 0], [85, 0, 0], [1, 4, 0], [26, 45, 0]]     # atoms without neutron data
 WITH_NEUTRON = [[26, 0, 0], [26, 56, 0], [1, 0, 0], [1, 2, 0], [64, 0, 0], [79, 0, 0], [79, 197, 0], [28, 58, 0]]
